@@ -50,12 +50,50 @@ impl Txt {
     }
 }
 
+// The value types are flat structs with a kind tag, not enums with payload: Kani lays payload enums
+// out as unions, and a value stored in a union is read back through byte extraction, which loses
+// constant propagation (a concrete method name inside `Val::Leaf(Leaf::Str(..))` became symbolic
+// for every comparison serde made, and the member loop of `Call`'s `Deserialize` was then unrolled
+// to the bound).
+
+pub const K_NULL: u8 = 0;
+pub const K_BOOL: u8 = 1;
+pub const K_NUM: u8 = 2;
+pub const K_STR: u8 = 3;
+
+/// A scalar JSON value.
 #[derive(Clone, Copy, Debug)]
-pub enum Leaf {
-    Null,
-    Bool(bool),
-    Num(u64),
-    Str(Txt),
+pub struct Leaf {
+    pub kind: u8,
+    pub b: bool,
+    pub n: u64,
+    pub s: Txt,
+}
+
+#[allow(non_snake_case)]
+impl Leaf {
+    pub const Null: Leaf = Leaf { kind: K_NULL, b: false, n: 0, s: Txt::empty() };
+    pub fn Bool(b: bool) -> Leaf {
+        Leaf { kind: K_BOOL, b, n: 0, s: Txt::empty() }
+    }
+    pub fn Num(n: u64) -> Leaf {
+        Leaf { kind: K_NUM, b: false, n, s: Txt::empty() }
+    }
+    pub fn Str(s: Txt) -> Leaf {
+        Leaf { kind: K_STR, b: false, n: 0, s }
+    }
+    pub fn is_null(&self) -> bool {
+        self.kind == K_NULL
+    }
+    pub fn is_bool(&self, b: bool) -> bool {
+        self.kind == K_BOOL && self.b == b
+    }
+    pub fn is_num(&self, n: u64) -> bool {
+        self.kind == K_NUM && self.n == n
+    }
+    pub fn is_str(&self, s: &str) -> bool {
+        self.kind == K_STR && self.s.is(s)
+    }
 }
 
 #[derive(Clone, Copy, Debug)]
@@ -78,12 +116,36 @@ impl Obj {
     }
 }
 
+pub const V_ABSENT: u8 = 0;
+pub const V_LEAF: u8 = 1;
+pub const V_OBJ: u8 = 2;
+
+/// A member value: absent (the member is not in the object at all), a scalar, or an object.
 #[derive(Clone, Copy, Debug)]
-pub enum Val {
-    /// The member is not in the object at all.
-    Absent,
-    Leaf(Leaf),
-    Obj(Obj),
+pub struct Val {
+    pub kind: u8,
+    pub leaf: Leaf,
+    pub obj: Obj,
+}
+
+#[allow(non_snake_case)]
+impl Val {
+    pub const Absent: Val = Val { kind: V_ABSENT, leaf: Leaf::Null, obj: Obj::empty() };
+    pub fn Leaf(l: Leaf) -> Val {
+        Val { kind: V_LEAF, leaf: l, obj: Obj::empty() }
+    }
+    pub fn Obj(o: Obj) -> Val {
+        Val { kind: V_OBJ, leaf: Leaf::Null, obj: o }
+    }
+    pub fn is_absent(&self) -> bool {
+        self.kind == V_ABSENT
+    }
+    pub fn as_leaf(&self) -> Option<&Leaf> {
+        if self.kind == V_LEAF { Some(&self.leaf) } else { None }
+    }
+    pub fn as_obj(&self) -> Option<&Obj> {
+        if self.kind == V_OBJ { Some(&self.obj) } else { None }
+    }
 }
 
 /// A JSON object of up to MAXE members, in order.
@@ -100,7 +162,7 @@ impl MapTok {
     }
     pub fn push(&mut self, k: &str, v: Val) {
         assert!(self.n < MAXE, "harness object capacity");
-        assert!(!matches!(v, Val::Absent), "harness: absent members are not pushed");
+        assert!(!v.is_absent(), "harness: absent members are not pushed");
         self.keys[self.n] = Txt::new(k);
         self.vals[self.n] = v;
         self.n += 1;
@@ -109,7 +171,7 @@ impl MapTok {
     pub fn find(&self, k: &str) -> Option<usize> {
         let mut i = 0;
         while i < MAXE {
-            if i < self.n && !matches!(self.vals[i], Val::Absent) && self.keys[i].is(k) {
+            if i < self.n && !self.vals[i].is_absent() && self.keys[i].is(k) {
                 return Some(i);
             }
             i += 1;
@@ -120,7 +182,7 @@ impl MapTok {
         let mut c = 0;
         let mut i = 0;
         while i < MAXE {
-            if i < self.n && !matches!(self.vals[i], Val::Absent) {
+            if i < self.n && !self.vals[i].is_absent() {
                 c += 1;
             }
             i += 1;
@@ -388,9 +450,9 @@ impl SerializeMap for ObjRec {
         Ok(())
     }
     fn serialize_value<T: ?Sized + Serialize>(&mut self, value: &T) -> Result<(), TokErr> {
-        let v = match value.serialize(ValSer)? {
-            Val::Leaf(l) => l,
-            _ => return Err(TokErr),
+        let v = match value.serialize(ValSer)?.as_leaf() {
+            Some(l) => *l,
+            None => return Err(TokErr),
         };
         if self.o.n >= MAXF {
             return Err(TokErr);
@@ -508,10 +570,11 @@ impl<'de> MapAccess<'de> for MapAcc<'de> {
         seed.deserialize(StrDe(self.m.keys[found].as_str())).map(Some)
     }
     fn next_value_seed<S: DeserializeSeed<'de>>(&mut self, seed: S) -> Result<S::Value, TokErr> {
-        match &self.m.vals[self.cur] {
-            Val::Absent => Err(TokErr),
-            Val::Leaf(l) => seed.deserialize(LeafDe(l)),
-            Val::Obj(o) => seed.deserialize(ObjDe(o)),
+        let v = &self.m.vals[self.cur];
+        match v.kind {
+            V_LEAF => seed.deserialize(LeafDe(&v.leaf)),
+            V_OBJ => seed.deserialize(ObjDe(&v.obj)),
+            _ => Err(TokErr),
         }
     }
 }
@@ -565,44 +628,49 @@ impl<'de> Deserializer<'de> for StrDe<'de> {
 struct LeafDe<'de>(&'de Leaf);
 impl<'de> LeafDe<'de> {
     fn num<V: Visitor<'de>>(self, v: V) -> Result<V::Value, TokErr> {
-        match self.0 {
-            Leaf::Num(n) => v.visit_u64(*n),
-            _ => Err(TokErr),
+        if self.0.kind == K_NUM {
+            v.visit_u64(self.0.n)
+        } else {
+            Err(TokErr)
         }
     }
     fn string<V: Visitor<'de>>(self, v: V) -> Result<V::Value, TokErr> {
-        match self.0 {
-            Leaf::Str(s) => v.visit_borrowed_str(s.as_str()),
-            _ => Err(TokErr),
+        if self.0.kind == K_STR {
+            v.visit_borrowed_str(self.0.s.as_str())
+        } else {
+            Err(TokErr)
         }
     }
     fn unit<V: Visitor<'de>>(self, v: V) -> Result<V::Value, TokErr> {
-        match self.0 {
-            Leaf::Null => v.visit_unit(),
-            _ => Err(TokErr),
+        if self.0.kind == K_NULL {
+            v.visit_unit()
+        } else {
+            Err(TokErr)
         }
     }
 }
 impl<'de> Deserializer<'de> for LeafDe<'de> {
     type Error = TokErr;
     fn deserialize_any<V: Visitor<'de>>(self, v: V) -> Result<V::Value, TokErr> {
-        match self.0 {
-            Leaf::Null => v.visit_unit(),
-            Leaf::Bool(b) => v.visit_bool(*b),
-            Leaf::Num(n) => v.visit_u64(*n),
-            Leaf::Str(s) => v.visit_borrowed_str(s.as_str()),
+        match self.0.kind {
+            K_NULL => v.visit_unit(),
+            K_BOOL => v.visit_bool(self.0.b),
+            K_NUM => v.visit_u64(self.0.n),
+            _ => v.visit_borrowed_str(self.0.s.as_str()),
         }
     }
     fn deserialize_bool<V: Visitor<'de>>(self, v: V) -> Result<V::Value, TokErr> {
-        match self.0 {
-            Leaf::Bool(b) => v.visit_bool(*b),
-            _ => Err(TokErr),
+        if self.0.kind == K_BOOL {
+            v.visit_bool(self.0.b)
+        } else {
+            Err(TokErr)
         }
     }
     fn deserialize_option<V: Visitor<'de>>(self, v: V) -> Result<V::Value, TokErr> {
-        match self.0 {
-            Leaf::Null => v.visit_none(),
-            _ => v.visit_some(self),
+        if self.0.kind == K_NULL {
+            v.visit_none()
+        } else {
+            v.visit_some(self)
         }
     }
     fn deserialize_newtype_struct<V: Visitor<'de>>(self, _n: &'static str, v: V) -> Result<V::Value, TokErr> {
@@ -614,9 +682,10 @@ impl<'de> Deserializer<'de> for LeafDe<'de> {
         _vs: &'static [&'static str],
         v: V,
     ) -> Result<V::Value, TokErr> {
-        match self.0 {
-            Leaf::Str(s) => v.visit_enum(s.as_str().into_deserializer()),
-            _ => Err(TokErr),
+        if self.0.kind == K_STR {
+            v.visit_enum(self.0.s.as_str().into_deserializer())
+        } else {
+            Err(TokErr)
         }
     }
     fn deserialize_i8<V: Visitor<'de>>(self, v: V) -> Result<V::Value, TokErr> { self.num(v) }
@@ -728,11 +797,11 @@ pub fn from_tokens<'de, T: serde::Deserialize<'de>>(m: &'de MapTok) -> Result<T,
 
 #[cfg(not(kani))]
 fn leaf_json(l: &Leaf, out: &mut String) {
-    match l {
-        Leaf::Null => out.push_str("null"),
-        Leaf::Bool(b) => out.push_str(if *b { "true" } else { "false" }),
-        Leaf::Num(n) => out.push_str(&n.to_string()),
-        Leaf::Str(s) => out.push_str(&serde_json::to_string(s.as_str()).unwrap()),
+    match l.kind {
+        K_NULL => out.push_str("null"),
+        K_BOOL => out.push_str(if l.b { "true" } else { "false" }),
+        K_NUM => out.push_str(&l.n.to_string()),
+        _ => out.push_str(&serde_json::to_string(l.s.as_str()).unwrap()),
     }
 }
 
@@ -742,7 +811,7 @@ pub fn to_json(m: &MapTok) -> String {
     let mut out = String::from("{");
     let mut first = true;
     for i in 0..m.n {
-        if matches!(m.vals[i], Val::Absent) {
+        if m.vals[i].is_absent() {
             continue;
         }
         if !first {
@@ -751,10 +820,10 @@ pub fn to_json(m: &MapTok) -> String {
         first = false;
         out.push_str(&serde_json::to_string(m.keys[i].as_str()).unwrap());
         out.push(':');
-        match &m.vals[i] {
-            Val::Absent => unreachable!(),
-            Val::Leaf(l) => leaf_json(l, &mut out),
-            Val::Obj(o) => {
+        match m.vals[i].kind {
+            V_LEAF => leaf_json(&m.vals[i].leaf, &mut out),
+            _ => {
+                let o = &m.vals[i].obj;
                 out.push('{');
                 for j in 0..o.n {
                     if j > 0 {
